@@ -101,7 +101,12 @@ def replay_tables(ctx, tab):
             for m in ({ma, -ma}):
                 for arr in (False, True):
                     r = k / 8.0
-                    got = R._f(z._radial_term(n, m, np.array([r, 0.5]) if arr else r))
+                    try:
+                        got = R._f(z._radial_term(n, m, np.array([r, 0.5]) if arr else r))
+                    except Exception as ex:      # the implementation's answer, not a harness failure
+                        ctx.report("raises", {"n": n, "m_abs": ma}, "_radial_term(%d,%d,%g) raises %s: %s"
+                                   % (n, m, r, type(ex).__name__, ex), {"n": n, "m": m, "r": r})
+                        break
                     ncmp += 1
                     err = abs(got - float(exact))
                     tol = float(scale) * 2.0 ** -46
@@ -164,11 +169,19 @@ def plan(ctx):
 
 
 def _term(a):
-    return R.term_event(*a)
+    try:
+        return R.term_event(*a)
+    except Exception as ex:       # the implementation raising on a valid index is a verdict, not a harness failure
+        return {"error": "%s: %s" % (type(ex).__name__, ex), "fam": a[0], "kind": "term",
+                "lens": "%s term %d at r=%r" % (a[0], a[1], a[2])}
 
 
 def _lin(a):
-    return R.lin_event(*a)
+    try:
+        return R.lin_event(*a)
+    except Exception as ex:
+        return {"error": "%s: %s" % (type(ex).__name__, ex), "fam": a[0], "kind": "lin",
+                "lens": "%s poly with %d coefficients" % (a[0], len(a[1]))}
 
 
 # ------------------------------------------------------------------ classification of verdicts
@@ -374,7 +387,8 @@ def main(ctx):
             if "not finite" in r["error"]:          # rays lost in a random lens: the OPD has NaN samples
                 ctx.skip("OPD samples not finite (rays lost)")
                 continue
-            ctx.report("raises", {"kind": "opd", "family": r["fam"]}, "ZernikeOPD on %s raised %s" % (r["lens"], r["error"]), r)
+            ctx.report("raises", {"kind": r.get("kind", "opd"), "family": r["fam"]},
+                       "%s on %s raised %s" % ("ZernikeOPD" if r.get("kind", "opd") == "opd" else "evaluation", r["lens"], r["error"]), r)
             continue
         m = r.pop("_meta")
         r["id"] = len(events)
